@@ -3,14 +3,16 @@ CLAIMED = {
    text='Bounded symbolic execution of the real Builder/Slice/Address code: for every enumerated type sequence (single types at '
         'every boundary width, pairs/triples of a 19-type alphabet, strings, snake chains, all address forms) the solver shows for ALL '
         'values of the symbolic operands that the produced bits equal the TL-B encoding, loads/preloads return the stored values and '
-        'nothing is left unread; counterexamples are replayed on the untouched library before being reported.',
+        'nothing is left unread; counterexamples are replayed on the untouched library before being reported.'
+        ' Also snake strings stored into a head cell with 0..8 bits of room, and one account stored three times with different anycast parts (each loaded back with its own; earlier results unchanged).',
    note='Trusted: z3, the SX leaf types and bitarray model (validated per path witness against the real bitarray), the primitive '
         'encodings in specs/enc.py. Structure (widths, lengths, sequence shapes) is enumerated, not symbolic; non-ASCII text and '
         'sequences longer than 3 are outside the claim.'),
  'C18': dict(
    text='Technique B on the loop body sliced from the current source: one real iteration from an arbitrary register state and byte '
         'equals the bitwise CRC step, plus initial value and finalisation: an inductive argument covering inputs of every length, '
-        'decided by z3; plus whole-function equivalence on up to 8 (crc16) / 2 (crc32c) fully symbolic bytes.',
+        'decided by z3; plus whole-function equivalence on up to 8 (crc16) / 2 (crc32c) fully symbolic bytes.'
+        ' Call sequences in one process: both checksums interleaved on the same data, both byte orders, other data in between; long inputs (to 4096 bytes, thorough 65536) in both byte orders.',
    note='Trusted: z3; the bitwise reference definitions (validated on the published check values); the fold-shape recogniser '
         '(if the shape is not recognised only the bounded claim is made and reported in evidence).',
    technique='inductive step lemma over the AST-sliced loop body + bounded symbolic execution, z3 QF_BV'),
@@ -19,33 +21,38 @@ CLAIMED = {
         'capacity edge (thorough: every fill level for five types), each reference-adding operation at 0..4 pre-stored references, '
         'chains at depth 1022/1023/1024, and each consuming read at remaining/requested lengths around the boundary (requested length '
         'also as a solver-enumerated symbolic integer), the solver shows for ALL operand values and contents: refused iff it does not fit, '
-        'otherwise exactly the encoding is appended / exactly the next bits are returned.',
+        'otherwise exactly the encoding is appended / exactly the next bits are returned.'
+        ' Absent optional references and empty dictionaries beside 0..4 references (they fit).',
    note='Trusted: z3, SX leaf types and bitarray model (validated per path witness), specs/enc.py. Operation sequences are prefill + '
         'references + one operation; structure is enumerated.'),
  'C01': dict(
    text='Bounded symbolic execution of the real Cell hashing code against an independent level-recursive specification of the TVM cell '
         'representation: for every bit length 0..1023, 0..4 references, a family of DAG shapes (sharing, diamonds, chains to depth 1023) '
         'and 8 construction routes, with ALL data bits symbolic and SHA-256 as an injective uninterpreted function, hash/depth/per-level '
-        'values/representation bytes equal the specification; equality, raw __hash__ and dictionary collisions follow the hashes.',
+        'values/representation bytes equal the specification; equality, raw __hash__ and dictionary collisions follow the hashes.'
+        ' Also: foreign bags whose stored hashes are arbitrary (a returned cell still reports the hash of its contents), a slice that is read on after to_cell(), and pairs of different cells that agree in part of what is hashed (same padded data bytes, same data with other references, prefix) built in one process in both orders.',
    note='Trusted: z3; SHA-256 collision-freeness (as an axiom, instantiated pairwise per path); specs/cellspec.py; the bitarray model '
         '(validated per path witness against the real library, where the real SHA-256 is used). DAG shapes outside the family are not covered.'),
  'C02': dict(
    text='Bounded symbolic execution of the real exotic-cell code against the level-recursive specification: every pruned-branch mask 1..7 '
         'in 11 nesting shapes (up to three nested Merkle proofs, Merkle updates, gap masks through siblings, library cells), three '
         'construction routes, with the stored hashes and depths symbolic; and pruning invariance on four trees with every antichain of '
-        'pruned subtrees, alone and under a Merkle proof root.',
+        'pruned subtrees, alone and under a Merkle proof root.'
+        ' Also parsed from foreign bags that store hashes and depths on every cell (gap masks included).',
    note='Trusted: z3; SHA-256 collision-freeness axiom; specs/cellspec.py; the shape grammar bounds (<= 3 Merkle levels, <= 6 cells).'),
  'C03': dict(
    text='Bounded symbolic execution of the real to_boc/Boc parser code: every rooted DAG with <= 3 cells (out-degree <= 3), with 4 cells '
         '(out-degree <= 2), chain/diamond/fan/repeated-reference families, pairs of cells that may be equal (de-duplication explored both '
         'ways), 7 exotic trees, 6 option sets, 3 input encodings x 3 entry points, with ALL cell contents symbolic: the parsed root has the '
-        'identical hash and identical structure. Deep chains (to 1023) and 255..257 / 65535..65537-cell boundaries with concrete filler.',
+        'identical hash and identical structure. Deep chains (to 1023) and 255..257 / 65535..65537-cell boundaries with concrete filler.'
+        ' Also: the largest cells (1016..1023 bits with 4 references, as root and inner cell) and the same cell objects serialised inside several bags in different orders.',
    note='Trusted: z3; CRC-32C inside the BoC code replaced by a memoised uninterpreted function (C18 decides the real one); SHA-256 axiom; '
         'text ropes for hex/base64. Larger DAGs with symbolic contents are outside the bound.'),
  'C04': dict(
    text='The bytes emitted by the real to_boc (symbolic contents, same DAG/option enumeration as C03) are decoded by an independent strict '
         'decoder of boc.tlb (specs/bocspec.py); the solver shows for all contents: accepted, flags/widths right, references forward, each '
-        'distinct cell exactly once, index = cumulative end offsets (doubled with cache bits), CRC over everything before it, same DAG.',
+        'distinct cell exactly once, index = cumulative end offsets (doubled with cache bits), CRC over everything before it, same DAG.'
+        ' Also the width boundaries of the header fields (exactly 255/256/257 and 65535..65537 cells; exactly 127..129, 255..257, 32767..32769, 65535..65537 bytes of cell data) and several bags over shared cell objects, each strictly decoded.',
    note='Trusted: z3; specs/bocspec.py as a faithful strict reading of boc.tlb; CRC as uninterpreted function on both sides (span check by congruence).'),
  'C09': dict(
    text='Bounded symbolic execution of the real HashMap/hashmap.utils/hashmap.parse/Slice/Builder code: every non-empty key set of widths 1..3 '
@@ -53,7 +60,8 @@ CLAIMED = {
         'two or three fully symbolic keys for small widths and keys symbolic in a bit window for widths 16..1023 (dictionary keys compare symbolically, '
         'the prefix structure is explored by solver-decided forks); signed keys over width+2 bits: the solver shows for all values that the parsed pairs '
         'are exactly the inserted ones in ascending order, independent of insertion order, that the empty map is no cell, and that a key is rejected '
-        'exactly when it does not fit.',
+        'exactly when it does not fit.'
+        ' Also one map object used over time (serialised, changed through set_int_key / set / the public mapping, serialised again) and optional dictionaries that are not the first reference of their cell.',
    note='Trusted: z3; SX leaf types and bitarray model (validated per path witness); specs/enc.py value encodings; SHA-256 axiom. Maps of more '
         'than 16 keys and fully symbolic wide keys are outside the bound.'),
  'C10': dict(
@@ -62,7 +70,8 @@ CLAIMED = {
         'on symbolic label bits for enumerated (n, m) emit/accept exactly the canonical label and every valid kind; (c) serialize() has the structure and '
         'hash of the canonical Patricia tree of specs/dictspec.py for every key set of widths 1..3 (width 4: 120 seeded sets quick / 15 000 thorough), selected wide sets and symbolic '
         'keys; (d) trees encoded by the specification with every valid label kind per edge and every antichain of pruned sub-trees, plain and augmented '
-        '(values and extras symbolic), are decoded to exactly the leaves and extras of the non-pruned part.',
+        '(values and extras symbolic), are decoded to exactly the leaves and extras of the non-pruned part.'
+        " Also the canonical cell after changes to a live map (including the owner's mapping passed as map_=) and augmentation values that own references.",
    note='Trusted: z3; specs/dictspec.py (label rule written from the reference node); specs/cellspec.py; bitarray model. Trees of more than 4 leaves '
         'are outside the every-encoding parser check; the order of augmentation values is not demanded (matched by node).'),
  'C12': dict(
@@ -70,7 +79,8 @@ CLAIMED = {
         'for 0..4 validators and EVERY signer list of length 0..3 (thorough 0..5) over {each validator, unknown signer} - duplicates and all orders '
         'included - the solver (linear integer arithmetic) shows for ALL 64-bit weights, all truth values of each signature and all block hashes: '
         'accepted exactly when every signature is valid, every signer known, signers pairwise distinct and 3*signed > 2*total; the signed payload '
-        'is magic+root_hash+file_hash; node id = sha256(magic+pubkey).',
+        'is magic+root_hash+file_hash; node id = sha256(magic+pubkey).'
+        " Also call sequences in one process (other signature bytes of free validity, a re-weighted validator set with the same keys) and check_block_signatures through the library's own verify_sign over an idealised Ed25519 with signature fields of 0..160 arbitrary bytes (counterexamples replayed with the real Ed25519).",
    note='Trusted: z3 (LIA); the stub contract of verify_sign (functional; validated on fixed vectors against libsodium through the repo wrapper). '
         'Ed25519 itself and more than 4 validators are outside the claim. int/int true division, if the code uses it, is modelled exactly through '
         'its rounding boundary (sx/zint.py).',
@@ -95,7 +105,8 @@ CLAIMED = {
         'and the 8 friendly variants and ALL workchains -128..127 and 32-byte account ids, parse(render(a)) equals a with the same flags and equal '
         'addresses hash equally; for all 48 character positions x 8 variants and every non-zero 6-bit change of the character the address is rejected. '
         'crc16 inside the address code is an uninterpreted function; the two facts about it that the rejection needs are discharged on the real crc16 '
-        'loop body sliced from the current source (technique B: a changed 6-bit group changes the register, differences persist; all lengths).',
+        'loop body sliced from the current source (technique B: a changed 6-bit group changes the register, differences persist; all lengths).'
+        ' Genuine and corrupted texts are offered repeatedly (no verdict may depend on earlier parses); the raw form is run per length class of the workchain text.',
    note='Trusted: z3; the base64/text rope contract; lemma composition (if crc16 loses the fold shape the corruption harness is not run and evidence says so). '
         'Non-canonical base64 text and int() liberalities in the raw form are outside the claim.',
    technique='bounded symbolic execution of the real source with z3 (SX) + inductive step lemmas on the AST-sliced crc16 loop body; replay on the untouched library'),
@@ -105,7 +116,8 @@ CLAIMED = {
         'field types (740; quick: all with strings/vectors/flags/polymorphic fields plus a seeded third of the rest), every combination of the guarding flag '
         'bits, string lengths 0..8/250..260 (quick: 8 boundary lengths), vector lengths 0..3 and polymorphic alternatives, with ALL integer, int128/int256, '
         'byte-string and text contents symbolic: the bytes equal the TL encoding, deserialize returns the same value and consumes exactly all bytes; '
-        'constructor ids/argument lists/class names equal the schema files; BlockIdExt/BlockId conversions are lossless for all field values.',
+        'constructor ids/argument lists/class names equal the schema files; BlockIdExt/BlockId conversions are lossless for all field values.'
+        ' Text fields with 2- and 3-byte UTF-8 characters around the 253/254-byte framing boundary; byte strings shorter than a constructor id are symbolic and the constructor table answers symbolic keys by solver-decided forks.',
    note='Trusted: z3; specs/tlspec.py. The first four bytes of byte/text strings are concrete (the parser looks every payload up in its constructor table); '
         'strings shorter than 4 bytes are concrete; parsing of vectors of non-bare elements is not demanded; hash()-protocol facts are checked on the '
         'concrete witness runs only.'),
@@ -115,7 +127,8 @@ CLAIMED = {
         'over every value kind (thorough: + 150 triples, depth 40), tuples of length 0..5 nested to depth 3, every VmCont constructor (control data with '
         'nargs/cp present or absent), slices with consumed bits/refs; all integer fields and cell contents symbolic: the cell is the schema encoding, '
         'parse(serialize(v)) equals v in order, serialising twice gives the same cell and leaves the caller\'s list, tuples, slices and builders unmodified; '
-        'stacks encoded by the specification are parsed to the values.',
+        'stacks encoded by the specification are parsed to the values.'
+        ' After the caller has changed the first parse result, a second parse still returns the original values.',
    note='Trusted: z3; the schema encoder in harness/C17.py; specs/cellspec.py. Control data holding a stack or a non-empty save list is outside the claim '
         '(serialize and parse use different value forms there); -2^63 may use either integer form.'),
  'C08': dict(
@@ -124,7 +137,8 @@ CLAIMED = {
         'symbolic, then every sequence of 0..1 and a seeded set of sequences of 2 (thorough: all 225, plus triples) operations from a 15-operation alphabet '
         '(consuming/draining/mutating derived slices, builders, copies, the originating builder, parents, other cells, repeated serialisation with '
         'different options, ordering, hashing, dictionaries, VM stacks); after every step the solver shows for all contents that bits, length, references, '
-        'children, hash, depth and to_boc under all 8 option sets equal those of an identical twin cell that was only observed (in a different call order).',
+        'children, hash, depth and to_boc under all 8 option sets equal those of an identical twin cell that was only observed (in a different call order).'
+        ' Every parameter of to_boc (flags included) is among the observed serialisations, requested in differing orders.',
    note='Trusted: z3; CRC-32C as uninterpreted function; SHA-256 axiom. The technique adds quantification over contents; aliasing itself is structural. '
         'Sequences longer than 3 and multi-threading are outside the claim.',
    technique='bounded model checking of operation sequences by symbolic execution of the real source with z3 (SX); replay on the untouched library'),
@@ -133,7 +147,8 @@ CLAIMED = {
         'stored hashes and extension bytes symbolic: 6 DAGs x size 1..4 x off_bytes min/2/8 x index/cache bits/CRC (quick: a seeded fifth), other topological '
         'orders, 1..3 roots incl. a root that is not cell 0, stored hashes on cell subsets and on exotic cells, both legacy magics: the returned roots have '
         'exactly the denoted structure and hash. Rejection (any exception) for every truncation length, extension by 1/2/4 symbolic bytes, every single-bit '
-        'flip position of CRC-protected input and every reference replaced by ANY backward/self or dangling index.',
+        'flip position of CRC-protected input and every reference replaced by ANY backward/self or dangling index.'
+        ' Includes the largest serialisable cell (1023 bits, 4 references, level mask 7, stored hashes) at every size width.',
    note='Trusted: z3; specs/bocspec.py; CRC-32C as an uninterpreted function plus the fact that equally long inputs differing in one byte have different CRCs, '
         'which follows (all lengths) from the two step lemmas discharged on the crc32c loop body sliced from the current source. Absent cells, slack inside '
         'cell_data and DAGs of more than 5 cells are outside the claim.',
@@ -155,7 +170,8 @@ CLAIMED = {
         'specs/tlbschema.py (constructors transcribed from block.tlb, names and tags linted against the repository copy): every constructor alternative '
         'forced in turn, optional fields by seed, ALL field values symbolic: every attribute equals the encoded value (unsigned stays unsigned) and exactly '
         'the encoded bits and references are consumed (a symbolic tail and a surplus reference must remain). The header of the bundled main-net block is '
-        'compared with an independent bit-level reading.',
+        'compared with an independent bit-level reading.'
+        ' Container types too: McStateExtra, McBlockExtra, BlockExtra, AccountBlock, ShardState(Unsplit), Block with generated HashmapAugE/HashmapAug/HashmapE/BinTree contents (0..2 entries, both constructor alternatives where they exist), keys, augmentation values and the exact remainder checked; address fields with and without anycast, the same account repeated.',
    note='Trusted: z3; specs/tlbschema.py and specs/tlbspec.py. Field-less constructors the library represents by None (account_none, fsm_none) and two '
         'attribute aliases (seqno) are accepted as such. McStateExtra/BlockExtra/AccountBlock dictionaries are outside the claim; one Bool is symbolic per instance.'),
  'C11': dict(
@@ -164,7 +180,8 @@ CLAIMED = {
         'sub-trees the proof built by pruning is accepted; rejected are: any other 256-bit expected hash, any change (bits, length, added/dropped/swapped '
         'reference) of an unpruned cell even with an attacker-chosen stored hash, any substituted pruned hash, non-proof roots; 6 trees with inner Merkle '
         'proof/update cells (level-2 pruned branches); shard states with 1..3 accounts under a block with a Merkle update: genuine account state accepted, a '
-        'different one, a pruned-branch carrier of the committed hash, another block hash and a tampered state rejected.',
+        'different one, a pruned-branch carrier of the committed hash, another block hash and a tampered state rejected.'
+        ' Also check_shard_proof: a masterchain block with a real header and Merkle update, a masterchain state whose McStateExtra lists 1..3 shard blocks in a BinTree; completeness and six rejection scenarios.',
    note='Trusted: z3; the collision-freeness axiom (instantiated pairwise per path); specs/cellspec.py, dictspec.py, bocspec.py. check_shard_proof and trees of '
         'more than 6 cells are outside the claim.'),
  'C19': dict(
@@ -176,7 +193,8 @@ CLAIMED = {
         'and cells; dictionary inputs = trees of 1..5 cells with all data bits symbolic, key lengths 1..1023: EVERY feasible path (solver-decided forks, '
         'a loop over a symbolic count forks per iteration) finishes within a*len(input)+b lines. DAG HALF (shape enumerated): maximal-sharing families '
         '(double/quadruple/mixed chains, ladders, Fibonacci DAGs) to depth 8 with all contents symbolic, depth 12..24 with a symbolic leaf, depth 32..64 '
-        'concrete: hashing, to_boc, from_boc, re-serialisation, copy/slice/hash/depth/order each within a*(n+e)^2+b lines.',
+        'concrete: hashing, to_boc, from_boc, re-serialisation, copy/slice/hash/depth/order each within a*(n+e)^2+b lines.'
+        ' TL: also byte strings holding 2 or 3 objects back to back, nested 3..18 (thorough 24) levels deep.',
    note='Trusted: z3; line counts as a proxy of work (C extensions and byte copies count as one line); the budgets (about 10x the largest path observed on '
         'the repaired tree). NOT decided by the solver: cost as a function of DAG shape - shapes are enumerated families and the deep instances are measured '
         'runs under the engine (stated in evidence). TL constructor ids at positions a template leaves symbolic are assumed unregistered unless they are the '
